@@ -44,6 +44,9 @@ def _apply_any(rep, x, din, dout):
     if isinstance(rep, np.ndarray):
         return ref.apply_choi(x, rep, din, dout)
     if isinstance(rep[0], (list, tuple)):
+        # the library's reading of nested lists (helper.channel_dim): [[K1], .., [Kr]] and [[K1, .., Kr]] with r > 2 are CP maps
+        if all(len(p) == 1 for p in rep) or (len(rep) == 1 and len(rep[0]) > 2):
+            return ref.apply_kraus(x, [k for p in rep for k in p])
         return ref.apply_kraus(x, [p[0] for p in rep], [p[1] for p in rep])
     return ref.apply_kraus(x, list(rep))
 
@@ -64,6 +67,9 @@ def _run_dual(ctx, spec, rng):
     forms = {"pairs": [[a, b] for a, b in zip(a_ops, b_ops)], "choi": ref.choi_of(a_ops, b_ops, din)}
     if cls == "cp":
         forms["flat"] = list(a_ops)
+        forms["column"] = [[a] for a in a_ops]
+        if r != 2:  # [[K1, K2]] would be read as the pair map X -> K1 X K2^*
+            forms["row"] = [list(a_ops)]
     if din * dout == 1:
         del forms["choi"]  # a 1x1 "Choi matrix" is a scalar; the library's swap treats it as a vector - degenerate, not probed
     for name, f in forms.items():
